@@ -3,6 +3,7 @@
 -/
 import Mrm.Spec.History
 import Mrm.Proofs.Rc
+import Mrm.Proofs.FloatAccepts
 
 namespace Mrm
 
@@ -75,7 +76,6 @@ theorem histInv_dom (d : Xml) (h : HistInv d = true) : WfRO d = true ∧ TimingO
           simp only [Xml.findall, List.mem_filter, beq_iff_eq] at hs
           exact hall s hs.1 hs.2
         obtain ⟨r2, hr2⟩ := storyOffsetsFrom_ok (rc.findall "story") 0 hss
-        unfold storyOffsets
-        simp only [hne, Bool.false_eq_true, if_false, hr2, Except.map]
+        exact storyOffsetsFrom_ok_exc _ 0 r2 hr2
 
 end Mrm
